@@ -181,4 +181,42 @@ TJ = make_type('TJ', cache=JsonCache(), max_parallel=None)
 TPost = make_type('TPost', cache='default', max_parallel=None, post_init=True)
 TCtx = make_type('TCtx', cache='default', max_parallel=None, filter_context=_filter_first)
 
+
+# ---- value-grammar universe (C07, C09, C15, C20): task types whose fields take arbitrary parameter trees
+def _vrun(self):
+    return ('V', type(self).__name__)
+
+
+def make_vtype(name, fields, *, cache='default', module=__name__, post_init=False, ret=None):
+    ns = {'__annotations__': {f: Any for f in fields}, 'run': _vrun, '__module__': module, '__qualname__': name}
+    if ret is not None:
+        def run(self) -> ret:
+            return ('V', type(self).__name__)
+        ns['run'] = run
+    if post_init:
+        ns['post_init'] = _vpost_init
+    cls = type(name, (), ns)
+    kw = {} if cache == 'default' else {'cache': cache}
+    return labtech.task(**kw)(cls)
+
+
+def _vpost_init(self):
+    object.__setattr__(self, 'derived', ('derived', repr(getattr(self, 'x', None))))
+
+
+V1 = make_vtype('V1', ['a', 'b'])
+V2 = make_vtype('V2', ['x'])
+V = make_vtype('V', ['x'])                       # name is a prefix of V1, V2, VV
+VV = make_vtype('VV', ['x'], ret=int)
+VJ = make_vtype('VJ', ['x'], cache=JsonCache())
+VN = make_vtype('VN', ['x'], cache=None)
+VPost = make_vtype('VPost', ['x'], post_init=True)
+VALUE_TYPES = {'V1': V1, 'V2': V2, 'V': V, 'VV': VV, 'VJ': VJ, 'VN': VN, 'VPost': VPost}
+ENUMS = {'Color': Color, 'Shade': Shade}
+
+
+class MyTuple(tuple):
+    pass
+
+
 PARENT_MARKER = 'import-time'
